@@ -196,6 +196,22 @@ def run(ctx):
             ctx.ob("KEYS-1", f"{P}: '{k}' produced by the resolved propagation builder", k in w,
                    "written on every path" if k in w else f"'{k}' is not written by "
                    f"{p.lookup_method(P, '_build_propagation_intermediates').qualname}", base)
+        # the energy zero 'ene0' belongs to free projection (it keeps the un-normalised weights in range); the phaseless
+        # importance function measures energies from pop_control_ene_shift, so its constant must not contain ene0
+        bfi = p.lookup_method(P, "_build_propagation_intermediates")
+        if bfi is not None and not P.split(".")[-1].startswith("propagator_cpmc"):
+            from ..symex import Evaluator as _Ev, sym as _sym, subterms as _sub
+            _ev = _Ev(p)
+            _rb = _ev.result(_ev.eval_function(bfi, self_class=P))
+            if _rb is not None:
+                _v = getitem(_rb, const("h0_prop"))
+                _e0 = getitem(_sym("ham_data"), const("ene0"))
+                if _v.op == "getitem" and _v.args[0] is _rb:
+                    ctx.rep.note(f"{P}: value stored under 'h0_prop' not found in the builder; ene0 rule not applicable")
+                else:
+                    ctx.ob("KEYS-1", f"{P}: the phaseless constant 'h0_prop' does not contain the free-projection energy "
+                           f"zero 'ene0'", not any(x is _e0 for x in _sub(_v)),
+                           "h0_prop is built from h0 and the mean-field shifts only", bfi)
         # typestate for the denominator (C08)
         rep = ts.rep_change_functions(p)
         r = ts.analyse_run(ts.TSRun(p, p.func("sampling.sampler.propagate_phaseless"), P, rep))
